@@ -93,3 +93,17 @@ Definition step (st : list reading) (o : op) : list reading :=
   end.
 
 Definition run_session (ops : list op) : list reading := fold_left step ops [].
+
+(* A reading of several object classes followed by the caller's edits (Run.ReadM): muts = (index of the
+   object in the row-by-row list of all objects, attribute, inner key, marker) *)
+Definition mut_ops (muts : list (nat * nat * option str * str)) : list op :=
+  map (fun m => match m with (j, a, inner, mk) => OMut 0 j a inner mk end) muts.
+Definition multi_ops (mc : mconfig) (rows : list (list cval)) (qkeys : list str)
+           (muts : list (nat * nat * option str * str)) : list op :=
+  OReadM mc rows qkeys :: mut_ops muts.
+(* (number of tuples, the session's readings at the end) with the table read once
+   (LemmasSession.multi_final_spec: it is run_session (multi_ops ...)) *)
+Definition multi_final (mc : mconfig) (rows : list (list cval)) (qkeys : list str)
+           (muts : list (nat * nat * option str * str)) : nat * list reading :=
+  let (items, e) := read_table_m mc rows in
+  (length items, fold_left step (mut_ops muts) [mkReading (concat items) e qkeys]).
